@@ -129,16 +129,20 @@ static void print_path_segment_walker(const char *segment, void *void_memo) {
 #endif
 static char suite_path[PATH_MAX];
 
+static void append_to_suite_path(const char *string) {
+    strncat(suite_path, string, sizeof(suite_path)-strlen(suite_path)-1);
+}
+
 static void strcat_path_segment(const char *segment, void *more_segments) {
     (void)more_segments;
-    if (suite_path[0] != '\0') strcat(suite_path, "-");
-    strncat(suite_path, segment, sizeof(suite_path)-strlen(suite_path)-1);
+    if (suite_path[0] != '\0') append_to_suite_path("-");
+    append_to_suite_path(segment);
 }
 
 static void add_suite_name(const char *suite_name) {
     if (suite_path[0] != '\0')
-        strcat(suite_path, "-");
-    strncat(suite_path, suite_name, sizeof(suite_path)-strlen(suite_path)-1);
+        append_to_suite_path("-");
+    append_to_suite_path(suite_name);
 }
 
 static void xml_reporter_start_suite(TestReporter *reporter, const char *suitename, int count) {
